@@ -269,8 +269,7 @@ Section LookupsProofs.
   Lemma invA_step s l : LInvA s -> enabled s l = true -> LInvA (step s l).
   Proof.
     intros [Ist Iss Isp Iex Iun Ips Itd Ihd Iapi Ipc Ias Ida Inp Iad Iac] En.
-    unfold is_announce, is_getput in *.
-    enab En. destruct l; boolhyps; unfold Lookups.step.
+    enab En. unfold is_announce, is_getput in *. destruct l; boolhyps; unfold Lookups.step.
     - (* OStartTrav *) own. constructor; afin.
     - (* OGetNodes *)
       own. unfold stops_ok in *.
@@ -324,16 +323,15 @@ Section LookupsProofs.
       unfold Lookups.deliver. rewrite R. destruct (tq_res x) as [y|]; [|exact G].
       destruct G as [Jst Jss Jsp Jex Jun Jps Jtd Jhd Japi Jpc Jas Jda Jnp Jad Jac].
       destruct (lc_api c) eqn:Api.
-      + constructor; assumption.
+      + constructor; cbn in *; rwapi; assumption.
       + destruct (l_peers_closed s) eqn:PC.
         * exfalso. destruct (Ipc eq_refl) as (_ & E & _). congruence.
-        * constructor; cbn in *; assumption.
+        * constructor; cbn in *; rwapi; assumption.
       + cbn in H0. apply opc_eqb_eq in H0.
-        destruct (accept y); try (constructor; assumption).
-        * constructor; cbn in *; rewrite ?H0 in *; cbn in *; try assumption; try reflexivity;
+        destruct (accept y); try (constructor; cbn in *; rwapi; assumption).
+        constructor; cbn in *; rwapi; rewrite ?H0 in *; cbn in *; try assumption; try reflexivity;
             try (intros; discriminate); try tauto.
-        * constructor; cbn in *; assumption.
-      + destruct (accept y); constructor; cbn in *; assumption.
+      + destruct (accept y); constructor; cbn in *; rwapi; assumption.
     - (* QAbandon *)
       destruct (tq_at_split _ _ _ H) as (x & l1 & l2 & A & _ & P & _ & U & _).
       assert (l_stopped s = false) as Hsp.
@@ -358,7 +356,434 @@ Section LookupsProofs.
       destruct (closest_elem (addr_of s q) (res_of s q)); constructor; cbn in *; assumption.
     - (* ECtx *) constructor; afin.
     - (* EClose *) constructor; afin.
+      intros _. rewrite Ist. destruct (Ihd H) as [_ Hp]. unfold handle_pc in Hp.
+      destruct (l_owner s); try reflexivity; discriminate.
     - (* EStopTrav *) constructor; afin.
+      intros _. rewrite Ist. destruct (Ihd H) as [_ Hp]. unfold handle_pc in Hp.
+      destruct (l_owner s); try reflexivity; discriminate.
     - (* EConsumerStop *) constructor; afin.
+  Qed.
+
+  Theorem invA_reachable s : reachable s -> LInvA s.
+  Proof. apply reachable_ind; [apply invA_init|]. intros s0 l _ I E. apply invA_step; assumption. Qed.
+
+  (* ---------------------------------------------------------------- C14_owner_stops *)
+  (* Whenever the owner's program has ended -- by finishing, by failing to obtain starting nodes, by
+     its context being cancelled, after Close / StopTraversing -- the traversal it started has been
+     told to stop.  (Repaired Bootstrap/Get/Put; Announce as found.) *)
+  Theorem owner_stops s :
+    reachable s -> stops_ok = true -> owner_done s = true -> l_started s = true -> l_stopping s = true.
+  Proof.
+    intros R Ok D _. pose proof (invA_reachable s R) as I. apply (a_past_stop s I).
+    unfold owner_done in D. apply opc_eqb_eq in D. rewrite D. simpl. rewrite Ok. reflexivity.
+  Qed.
+
+  (* on the tree as found this still holds on every path except the failed start *)
+  Theorem owner_stops_pinned_other_paths s :
+    reachable s -> owner_done s = true -> l_err s <> Some ErrStart -> l_started s = true -> l_stopping s = true.
+  Proof.
+    intros R D NE _. pose proof (invA_reachable s R) as I. apply (a_past_stop s I).
+    unfold owner_done in D. apply opc_eqb_eq in D. rewrite D. simpl.
+    destruct (l_err s) as [[]|]; try (rewrite orb_true_r; reflexivity). congruence.
+  Qed.
+
+  (* and stopping is for good *)
+  Lemma stopping_mono s l : l_stopping s = true -> l_stopping (step_en s l) = true.
+  Proof.
+    intros H. unfold Lookups.step_en. destruct (enabled s l); [|assumption].
+    destruct l; unfold Lookups.step; cbn; try assumption; try reflexivity.
+    - destruct (lc_sn c); [destruct (is_announce c)|destruct (is_announce c || repaired c)..]; cbn; try assumption; reflexivity.
+    - destruct (lc_api c); try destruct (l_got s); cbn; assumption.
+    - destruct (lc_api c); cbn; reflexivity.
+    - destruct (lc_api c); [|destruct (lc_ann c)|..]; cbn; assumption.
+    - destruct (l_todo s); cbn; assumption.
+    - destruct (query_panics r), r; cbn; assumption.
+    - unfold Lookups.deliver. destruct (res_of s q) as [y|]; [|cbn; assumption].
+      destruct (lc_api c); [cbn; assumption|destruct (l_peers_closed s); cbn; assumption|..];
+        destruct (accept y); cbn; assumption.
+    - destruct (closest_elem (addr_of s q) (res_of s q)); cbn; assumption.
+  Qed.
+
+  (* ---------------------------------------------------------------- progress and termination *)
+  (* conditions under which the lookup is bound to end by itself: the owner stops its traversal on
+     every path, and an Announce's consumer keeps reading (or, with the D10 repair, the announce is
+     stopping) *)
+  Definition live (s : lstate) : Prop :=
+    stops_ok = true /\
+    (is_announce c = true -> l_reads s = true \/ (lc_abandon_ctx c = true /\ l_stopping s = true)).
+
+  Definition is_issue (l : label) : bool := match l with TIssue _ => true | _ => false end.
+
+  Lemma no_panic_ok s : LInvA s -> stops_ok = true -> l_panic s = false.
+  Proof.
+    intros I Ok. destruct (l_panic s) eqn:P; [|reflexivity]. destruct (a_no_panic s I P) as [G V].
+    unfold stops_ok, is_announce, repaired, is_getput in *. rewrite V in Ok. destruct (lc_api c); discriminate.
+  Qed.
+
+  Lemma tq_at_head s x rest p : l_inflight s = x :: rest -> tq_phase x = p -> tq_at s (tq_id x) p = true.
+  Proof. intros E P. unfold tq_at. rewrite E, find_tq_head. apply qphase_eqb_eq. assumption. Qed.
+
+  (* a query in flight can always take its next step, given who may be waiting for its result *)
+  Lemma query_progress s x rest :
+    LInvA s -> l_panic s = false -> l_inflight s = x :: rest ->
+    (tq_phase x = PDeliver ->
+       if is_announce c then l_reads s = true \/ (lc_abandon_ctx c = true /\ l_stopping s = true)
+       else l_owner s = OWait \/ l_stopping s = true) ->
+    exists l, internal l = true /\ is_issue l = false /\ enabled s l = true.
+  Proof.
+    intros I NP E Hd. destruct (tq_phase x) eqn:P.
+    - exists (QReturn (tq_id x) None). repeat split. unfold Lookups.enabled. rewrite NP. simpl.
+      apply (tq_at_head s x rest PQuery E P).
+    - specialize (Hd eq_refl). pose proof (tq_at_head s x rest PDeliver E P) as T.
+      destruct (is_announce c) eqn:An.
+      + destruct Hd as [Rd|[Ab St]].
+        * exists (QDeliver (tq_id x)). repeat split. unfold Lookups.enabled. rewrite NP, T, An, Rd. reflexivity.
+        * exists (QAbandon (tq_id x)). repeat split. unfold Lookups.enabled. rewrite NP, T, An, Ab, St. reflexivity.
+      + destruct Hd as [Ow|St].
+        * exists (QDeliver (tq_id x)). repeat split. unfold Lookups.enabled. rewrite NP, T, An, Ow. reflexivity.
+        * exists (QAbandon (tq_id x)). repeat split. unfold Lookups.enabled. rewrite NP, T, An, St. reflexivity.
+    - exists (QFinish (tq_id x)). repeat split. unfold Lookups.enabled. rewrite NP. simpl.
+      apply (tq_at_head s x rest PReturn E P).
+  Qed.
+
+  Theorem lprogress s :
+    LInvA s -> live s -> all_done s = false ->
+    exists l, internal l = true /\ is_issue l = false /\ enabled s l = true.
+  Proof.
+    intros I [Ok Lv] ND. pose proof (no_panic_ok s I Ok) as NP.
+    assert (En : forall l, (match l with
+                            | OStartTrav => opc_eqb (l_owner s) OStart
+                            | OGetNodes => opc_eqb (l_owner s) OStartNodes
+                            | OStopStep => opc_eqb (l_owner s) OStop
+                            | OCloseP => opc_eqb (l_owner s) OClosePeers
+                            | OSend _ => opc_eqb (l_owner s) OAnnounce && negb (nil_b (l_todo s))
+                            | OSendsDone => opc_eqb (l_owner s) OAnnounce && nil_b (l_todo s)
+                            | _ => false end) = true -> enabled s l = true).
+    { intros l H. unfold Lookups.enabled. rewrite NP. destruct l; simpl; try discriminate; assumption. }
+    destruct (l_owner s) eqn:Ow.
+    - exists OStartTrav. repeat split. apply En. reflexivity.
+    - exists OGetNodes. repeat split. apply En. reflexivity.
+    - (* OWait *)
+      assert (l_started s = true) as St by (rewrite (a_started s I), Ow; reflexivity).
+      destruct (l_inflight s) as [|x rest] eqn:Inf.
+      + exists OStalled. repeat split. unfold Lookups.enabled, stall_ready. rewrite NP, Ow, St, Inf. simpl.
+        rewrite orb_true_r. reflexivity.
+      + apply (query_progress s x rest I NP Inf). intros P. destruct (is_announce c) eqn:An.
+        * apply Lv. reflexivity.
+        * left. assumption.
+    - exists OStopStep. repeat split. apply En. reflexivity.
+    - (* OWaitStopped *)
+      assert (l_started s = true) as St by (rewrite (a_started s I), Ow; reflexivity).
+      assert (l_stopping s = true) as Sg by (apply (a_past_stop s I); rewrite Ow; reflexivity).
+      destruct (l_stopped s) eqn:Sd.
+      + exists OStoppedStep. repeat split. unfold Lookups.enabled. rewrite NP, Ow, Sd. reflexivity.
+      + destruct (l_inflight s) as [|x rest] eqn:Inf.
+        * exists TStopWait. repeat split. unfold Lookups.enabled. rewrite NP, St, Sg, Sd, Inf. reflexivity.
+        * apply (query_progress s x rest I NP Inf). intros P. destruct (is_announce c) eqn:An.
+          -- apply Lv. reflexivity.
+          -- right. assumption.
+    - (* OAnnounce *)
+      destruct (l_todo s) as [|e rest] eqn:Td.
+      + exists OSendsDone. repeat split. apply En. reflexivity.
+      + exists (OSend true). repeat split. apply En. reflexivity.
+    - exists OCloseP. repeat split. apply En. reflexivity.
+    - (* ODone *)
+      assert (l_started s = true) as St by (rewrite (a_started s I), Ow; reflexivity).
+      assert (l_stopping s = true) as Sg by (apply (a_past_stop s I); rewrite Ow; simpl; rewrite Ok; reflexivity).
+      destruct (l_inflight s) as [|x rest] eqn:Inf.
+      + pose proof (a_todo s I) as Td. unfold todo_ok in Td. rewrite Ow in Td. simpl in Td. rewrite orb_false_r in Td.
+        unfold Lookups.all_done, owner_done in ND. rewrite Ow, Inf, Td, St, Sg in ND. simpl in ND.
+        destruct (l_loop_exited s) eqn:Le.
+        * destruct (l_stopped s) eqn:Sd; [discriminate|].
+          exists TStopWait. repeat split. unfold Lookups.enabled. rewrite NP, St, Sg, Sd, Inf. reflexivity.
+        * exists TLoopExit. repeat split. unfold Lookups.enabled. rewrite NP, St, Sg, Le. reflexivity.
+      + apply (query_progress s x rest I NP Inf). intros P. destruct (is_announce c) eqn:An.
+        * apply Lv. reflexivity.
+        * right. assumption.
+  Qed.
+
+  Lemma live_step s l : live s -> internal l = true -> enabled s l = true -> live (step s l).
+  Proof.
+    intros [Ok Lv] Il En. split; [assumption|]. intros An. specialize (Lv An).
+    assert (l_reads (step s l) = l_reads s) as Rd.
+    { destruct l; try discriminate Il; unfold Lookups.step, Lookups.deliver; cbn; try reflexivity;
+        repeat match goal with |- context [match ?x with _ => _ end] => destruct x; cbn end; reflexivity. }
+    rewrite Rd. destruct Lv as [?|[Ab St]]; [left; assumption|right]. split; [assumption|].
+    pose proof (stopping_mono s l St) as M. unfold Lookups.step_en in M. rewrite En in M. exact M.
+  Qed.
+
+  Fixpoint path_ok (s : lstate) (ls : list label) : bool :=
+    match ls with
+    | [] => true
+    | l :: r => enabled s l && path_ok (step s l) r
+    end.
+
+  Lemma step_en_enabled s l : enabled s l = true -> step_en s l = step s l.
+  Proof. intros E. unfold Lookups.step_en. rewrite E. reflexivity. Qed.
+
+  Lemma ends_from : forall n s, lmu s <= n -> LInvA s -> live s ->
+    exists ls, forallb internal ls = true /\ forallb (fun l => negb (is_issue l)) ls = true /\
+               path_ok s ls = true /\ all_done (exec s ls) = true /\ length ls <= n.
+  Proof.
+    induction n as [|n IH]; intros s M I Lv.
+    - destruct (all_done s) eqn:D.
+      + exists []. repeat split; simpl; try assumption; lia.
+      + destruct (lprogress s I Lv D) as (l & _ & _ & E). pose proof (lmu_decreases s l E). lia.
+    - destruct (all_done s) eqn:D.
+      + exists []. repeat split; simpl; try assumption; lia.
+      + destruct (lprogress s I Lv D) as (l & Il & Is & E).
+        pose proof (lmu_decreases s l E) as Dm.
+        destruct (IH (step s l)) as (ls & A & B & P & F & L);
+          [lia|apply invA_step; assumption|apply live_step; assumption|].
+        exists (l :: ls). simpl. rewrite Il, Is, A, B, E, P. repeat split; try lia.
+        rewrite step_en_enabled; assumption.
+  Qed.
+
+  (* From every reachable live state some finite sequence (at most lmu of them) of enabled INTERNAL
+     events, none of which issues a new query, ends every process of the lookup:
+     owner returned, nothing in flight, no announce/put goroutine left, and -- if a traversal was
+     started -- stopping, Stopped and run loop exited. *)
+  Theorem lookup_ends s :
+    reachable s -> live s ->
+    exists ls, forallb internal ls = true /\ forallb (fun l => negb (is_issue l)) ls = true /\
+               path_ok s ls = true /\ all_done (exec s ls) = true /\ length ls <= lmu s.
+  Proof. intros R Lv. apply (ends_from (lmu s) s (le_n _) (invA_reachable s R) Lv). Qed.
+
+  (* and no run at all is longer than the measure: no infinite behaviour, whatever the schedule *)
+  Theorem run_length_bound ls : forall s, path_ok s ls = true -> length ls <= lmu s.
+  Proof.
+    induction ls as [|l r IH]; intros s P; simpl in *; [lia|].
+    apply andb_prop in P. destruct P as [E P]. pose proof (lmu_decreases s l E). specialize (IH _ P). lia.
+  Qed.
+
+  Definition lstep (s' s : lstate) : Prop := exists l, enabled s l = true /\ s' = step s l.
+  Theorem lstep_wf : well_founded lstep.
+  Proof. apply (well_founded_lt_compat _ lmu). intros s' s (l & E & ->). apply lmu_decreases. assumption. Qed.
+
+  (* "Stop leads to Stopped once the in-flight queries have returned": in a stopping traversal no new
+     query starts, and with nothing in flight the two traversal goroutines can end *)
+  Theorem stopping_no_issue s a : l_stopping s = true -> enabled s (TIssue a) = false.
+  Proof. intros H. unfold Lookups.enabled. simpl. rewrite H. simpl. rewrite andb_false_r, andb_false_r. reflexivity. Qed.
+
+  Theorem stop_reaches_stopped s :
+    l_started s = true -> l_stopping s = true -> l_inflight s = [] -> l_panic s = false ->
+    let s' := exec s [TLoopExit; TStopWait] in
+    l_loop_exited s' = true /\ l_stopped s' = true /\ l_inflight s' = [].
+  Proof.
+    intros St Sg Inf NP. cbn [Lookups.exec fold_left].
+    assert (E1 : step_en s TLoopExit = if l_loop_exited s then s else set_loop_exited s true).
+    { unfold Lookups.step_en, Lookups.enabled. rewrite NP, St, Sg. cbn. destruct (l_loop_exited s); reflexivity. }
+    rewrite E1. clear E1.
+    remember (if l_loop_exited s then s else set_loop_exited s true) as s1 eqn:Es1.
+    assert (l_panic s1 = false /\ l_started s1 = true /\ l_stopping s1 = true /\ l_inflight s1 = [] /\
+            l_loop_exited s1 = true) as (NP1 & St1 & Sg1 & Inf1 & Le1).
+    { subst s1. destruct (l_loop_exited s) eqn:Le; cbn; repeat split; assumption. }
+    assert (E2 : step_en s1 TStopWait = if l_stopped s1 then s1 else set_stopped s1 true).
+    { unfold Lookups.step_en, Lookups.enabled. rewrite NP1, St1, Sg1, Inf1. cbn. destruct (l_stopped s1); reflexivity. }
+    rewrite E2. destruct (l_stopped s1) eqn:Sd; cbn; repeat split; assumption.
+  Qed.
+
+  (* ---------------------------------------------------------------- bookkeeping of queries and replies *)
+  Definition log_ids (s : lstate) : list nat := map (fun e => fst (fst e)) (l_log s).
+  Definition del_ids (s : lstate) : list nat := map (fun d => fst (fst (fst d))) (l_delivered s).
+
+  Record LInvB (s : lstate) : Prop := mkLInvB {
+    b_ids : forall x, In x (l_inflight s) -> tq_id x < l_nq s;
+    b_nodup : NoDup (map tq_id (l_inflight s));
+    b_log_ids : forall q, In q (log_ids s) -> q < l_nq s;
+    b_log_nodup : NoDup (log_ids s);
+    b_query : forall x, In x (l_inflight s) -> tq_phase x = PQuery -> ~ In (tq_id x) (log_ids s) /\ tq_res x = None;
+    b_res : forall x r, In x (l_inflight s) -> tq_res x = Some r -> In (tq_id x, tq_addr x, r) (l_log s);
+    b_deliver_res : forall x, In x (l_inflight s) -> tq_phase x = PDeliver ->
+                    exists r, tq_res x = Some r /\ gr_has_r r = true;
+    b_del_ids : forall q, In q (del_ids s) -> In q (log_ids s);
+    b_del_nodup : NoDup (del_ids s);
+    b_abn_ids : forall q, In q (l_abandoned s) -> In q (log_ids s);
+    b_pending : forall x, In x (l_inflight s) -> tq_phase x <> PReturn ->
+                ~ In (tq_id x) (del_ids s) /\ ~ In (tq_id x) (l_abandoned s);
+    b_delivered : forall q a i p, In (q, a, i, p) (l_delivered s) ->
+                  exists r, In (q, a, r) (l_log s) /\ gr_has_r r = true /\ i = gr_id r /\ p = gr_payload r;
+    b_status : is_announce c = true -> forall q a r, In (q, a, r) (l_log s) -> gr_has_r r = true ->
+               (exists x, In x (l_inflight s) /\ tq_id x = q /\ tq_phase x = PDeliver) \/
+               In (q, a, gr_id r, gr_payload r) (l_delivered s) \/ In q (l_abandoned s);
+    b_abandon : is_announce c = true -> l_abandoned s <> [] -> lc_abandon_ctx c = true
+  }.
+
+  Lemma log_unique s q a r a' r' :
+    NoDup (log_ids s) -> In (q, a, r) (l_log s) -> In (q, a', r') (l_log s) -> a = a' /\ r = r'.
+  Proof.
+    unfold log_ids. induction (l_log s) as [|[[q0 a0] r0] l IH]; simpl; intros N I1 I2; [destruct I1|].
+    inversion N as [|? ? Nin N']; subst.
+    destruct I1 as [E1|I1], I2 as [E2|I2].
+    - injection E1 as -> -> ->. injection E2 as -> ->. split; reflexivity.
+    - injection E1 as -> -> ->. exfalso. apply Nin. apply in_map_iff. exists (q, a', r'). split; [reflexivity|assumption].
+    - injection E2 as -> -> ->. exfalso. apply Nin. apply in_map_iff. exists (q, a, r). split; [reflexivity|assumption].
+    - apply IH; assumption.
+  Qed.
+
+  Lemma nodup_split_ids l1 (x : tquery) l2 y :
+    NoDup (map tq_id (l1 ++ x :: l2)) -> In y (l1 ++ l2) -> tq_id y <> tq_id x.
+  Proof.
+    rewrite map_app. simpl. intros N I E. apply NoDup_remove_2 in N. apply N.
+    rewrite <- E. rewrite <- map_app. apply in_map. assumption.
+  Qed.
+
+  Lemma nodup_replace l1 (x y : tquery) l2 :
+    tq_id y = tq_id x -> NoDup (map tq_id (l1 ++ x :: l2)) -> NoDup (map tq_id (l1 ++ y :: l2)).
+  Proof. intros E. rewrite !map_app. simpl. rewrite E. trivial. Qed.
+
+  Lemma invB_init : LInvB (l_init c).
+  Proof.
+    constructor; simpl; intros; try contradiction; try constructor; try discriminate.
+  Qed.
+
+  Lemma invB_frame s s' :
+    l_inflight s' = l_inflight s -> l_nq s' = l_nq s -> l_log s' = l_log s ->
+    l_delivered s' = l_delivered s -> l_abandoned s' = l_abandoned s -> LInvB s -> LInvB s'.
+  Proof.
+    intros E1 E2 E3 E4 E5 [B1 B2 B3 B4 B5 B6 B7 B8 B9 B10 B11 B12 B13 B14].
+    constructor; unfold log_ids, del_ids in *; rewrite ?E1, ?E2, ?E3, ?E4, ?E5; assumption.
+  Qed.
+
+  Ltac destr_all :=
+    repeat match goal with |- context [match ?x with _ => _ end] => destruct x; cbn end; try reflexivity.
+
+  Lemma after_query_not_query r : after_query r <> PQuery.
+  Proof.
+    unfold Lookups.after_query. destruct r as [y|]; [|discriminate]. destruct (negb (gr_has_r y)); [discriminate|].
+    destruct (lc_api c); try discriminate; destruct (accept y); discriminate.
+  Qed.
+
+  Lemma after_query_deliver_has_r r : after_query r = PDeliver -> exists y, r = Some y /\ gr_has_r y = true.
+  Proof.
+    unfold Lookups.after_query. destruct r as [y|]; [|discriminate]. destruct (gr_has_r y) eqn:H; simpl; [|discriminate].
+    intros _. exists y. split; [reflexivity|assumption].
+  Qed.
+
+  Lemma after_query_announce y : is_announce c = true -> gr_has_r y = true -> after_query (Some y) = PDeliver.
+  Proof.
+    unfold Lookups.after_query, is_announce. intros A H. rewrite H. simpl. destruct (lc_api c); try discriminate. reflexivity.
+  Qed.
+
+  Lemma lt_not_in (n : nat) l : (forall q, In q l -> q < n) -> ~ In n l.
+  Proof. intros H I. specialize (H n I). lia. Qed.
+
+  Lemma NoDup_snoc_nat (l : list nat) a : NoDup l -> ~ In a l -> NoDup (l ++ [a]).
+  Proof.
+    induction l as [|b l IH]; simpl; intros N Ni; [constructor; [tauto|constructor]|].
+    inversion N; subst. constructor.
+    - rewrite in_app_iff. simpl. intros [I|[E|[]]]; [tauto|]. apply Ni. left. congruence.
+    - apply IH; [assumption|tauto].
+  Qed.
+
+  Lemma invB_step s l : LInvA s -> LInvB s -> enabled s l = true -> LInvB (step s l).
+  Proof.
+    intros IA IB En.
+    destruct l;
+      try (apply (invB_frame s); [..|assumption]; unfold Lookups.step; cbn; destr_all; fail).
+    - (* TIssue *)
+      destruct IB as [B1 B2 B3 B4 B5 B6 B7 B8 B9 B10 B11 B12 B13 B14].
+      unfold Lookups.step. constructor; cbn; unfold log_ids, del_ids in *; cbn.
+      + intros x I. apply in_app_or in I. destruct I as [I|[<-|[]]]; [specialize (B1 x I); lia|simpl; lia].
+      + rewrite map_app. simpl. apply NoDup_snoc_nat; [assumption|].
+        apply lt_not_in. intros q I. apply in_map_iff in I. destruct I as (x & <- & I). apply B1. assumption.
+      + intros q I. specialize (B3 q I). lia.
+      + assumption.
+      + intros x I P. apply in_app_or in I. destruct I as [I|[<-|[]]]; [apply B5; assumption|].
+        simpl. split; [apply lt_not_in; assumption|reflexivity].
+      + intros x r I R. apply in_app_or in I. destruct I as [I|[<-|[]]]; [apply B6; assumption|discriminate].
+      + intros x I P. apply in_app_or in I. destruct I as [I|[<-|[]]]; [apply B7; assumption|discriminate].
+      + assumption.
+      + assumption.
+      + assumption.
+      + intros x I P. apply in_app_or in I. destruct I as [I|[<-|[]]]; [apply B11; assumption|]. simpl. split.
+        * intros I. apply B8 in I. apply B3 in I. lia.
+        * intros I. apply B10 in I. apply B3 in I. lia.
+      + assumption.
+      + intros An q a0 r I H. destruct (B13 An q a0 r I H) as [(x & Ix & E & P)|[D|A]]; [left|right; left|right; right]; try assumption.
+        exists x. split; [apply in_or_app; left; assumption|split; assumption].
+      + assumption.
+    - (* QReturn *)
+      pose proof En as En'. unfold Lookups.enabled in En'. apply andb_prop in En'. destruct En' as [_ T].
+      destruct (tq_at_split _ _ _ T) as (x & l1 & l2 & A & Eq & P & _ & U & _ & _ & Ad).
+      destruct IB as [B1 B2 B3 B4 B5 B6 B7 B8 B9 B10 B11 B12 B13 B14].
+      assert (Ix : In x (l_inflight s)) by (rewrite A; apply In_split3; tauto).
+      destruct (B5 x Ix P) as [Nlog Rnone].
+      assert (Hother : forall y, In y l1 \/ In y l2 -> In y (l_inflight s) /\ tq_id y <> q).
+      { intros y Iy. split; [rewrite A; apply In_split3; tauto|].
+        rewrite <- Eq. apply (nodup_split_ids l1 x l2 y); [rewrite <- A; assumption|apply in_or_app; assumption]. }
+      set (x' := tq_returned (after_query r) r x).
+      assert (G : LInvB (match r with
+                         | Some y => set_log (set_inflight s (upd_tq q (tq_returned (after_query r) r) (l_inflight s)))
+                                             (l_log s ++ [(q, addr_of s q, y)])
+                         | None => set_inflight s (upd_tq q (tq_returned (after_query r) r) (l_inflight s))
+                         end)).
+      { assert (Hlog : forall l', l' = match r with Some y => l_log s ++ [(q, tq_addr x, y)] | None => l_log s end ->
+                  (forall e, In e (l_log s) -> In e l') /\
+                  (forall q0, In q0 (map (fun e => fst (fst e)) l') -> In q0 (log_ids s) \/ (q0 = q /\ r <> None)) /\
+                  NoDup (map (fun e => fst (fst e)) l')).
+        { intros l' ->. destruct r as [y|].
+          - split; [intros e I; apply in_or_app; left; assumption|]. split.
+            + intros q0 I. rewrite map_app in I. apply in_app_or in I. destruct I as [I|[<-|[]]]; [left; assumption|].
+              right. split; [reflexivity|discriminate].
+            + rewrite map_app. simpl. apply NoDup_snoc_nat; [assumption|]. rewrite <- Eq. exact Nlog.
+          - split; [tauto|]. split; [intros q0 I; left; assumption|assumption]. }
+        set (log' := match r with Some y => l_log s ++ [(q, tq_addr x, y)] | None => l_log s end).
+        destruct (Hlog log' eq_refl) as (Hsub & Hids & Hnd).
+        assert (Einf : forall sx, l_inflight sx = upd_tq q (tq_returned (after_query r) r) (l_inflight s) ->
+                                  l_inflight sx = l1 ++ x' :: l2) by (intros sx ->; apply U).
+        assert (K : forall sx, l_inflight sx = l1 ++ x' :: l2 -> l_nq sx = l_nq s -> l_log sx = log' ->
+                               l_delivered sx = l_delivered s -> l_abandoned sx = l_abandoned s -> LInvB sx).
+        { intros sx E1 E2 E3 E4 E5. constructor; unfold log_ids, del_ids in *; rewrite ?E1, ?E2, ?E3, ?E4, ?E5.
+          - intros y I. apply In_split3 in I. destruct I as [I|[->|I]]; [apply B1; apply Hother; tauto|simpl; apply B1; assumption|apply B1; apply Hother; tauto].
+          - apply (nodup_replace l1 x x' l2); [reflexivity|rewrite <- A; assumption].
+          - intros q0 I. destruct (Hids q0 I) as [I'|[-> _]]; [apply B3; assumption|rewrite <- Eq; apply B1; assumption].
+          - assumption.
+          - intros y I Py. apply In_split3 in I. destruct I as [I|[->|I]].
+            + destruct (Hother y (or_introl I)) as [Iy Ny]. destruct (B5 y Iy Py) as [N1 N2]. split; [|assumption].
+              intros J. destruct (Hids _ J) as [J'|[J' _]]; [tauto|congruence].
+            + simpl in Py. exfalso. exact (after_query_not_query r Py).
+            + destruct (Hother y (or_intror I)) as [Iy Ny]. destruct (B5 y Iy Py) as [N1 N2]. split; [|assumption].
+              intros J. destruct (Hids _ J) as [J'|[J' _]]; [tauto|congruence].
+          - intros y r0 I Ry. apply In_split3 in I. destruct I as [I|[->|I]].
+            + apply Hsub. apply B6; [apply Hother; tauto|assumption].
+            + simpl in Ry. simpl. subst log'. rewrite Ry. apply in_or_app. right. left. rewrite Eq. reflexivity.
+            + apply Hsub. apply B6; [apply Hother; tauto|assumption].
+          - intros y I Py. apply In_split3 in I. destruct I as [I|[->|I]].
+            + apply B7; [apply Hother; tauto|assumption].
+            + simpl in Py. simpl. destruct (after_query_deliver_has_r r Py) as (y0 & -> & Hy). exists y0. split; [reflexivity|assumption].
+            + apply B7; [apply Hother; tauto|assumption].
+          - intros q0 I. apply B8 in I. apply in_map_iff in I. destruct I as (e & <- & I). apply in_map. apply Hsub. assumption.
+          - assumption.
+          - intros q0 I. apply B10 in I. apply in_map_iff in I. destruct I as (e & <- & I). apply in_map. apply Hsub. assumption.
+          - intros y I Py. apply In_split3 in I. destruct I as [I|[->|I]].
+            + apply B11; [apply Hother; tauto|assumption].
+            + simpl. rewrite Eq. split; intros J; apply Nlog; rewrite Eq; [apply B8|apply B10]; assumption.
+            + apply B11; [apply Hother; tauto|assumption].
+          - intros q0 a0 i p I. destruct (B12 q0 a0 i p I) as (r0 & I0 & Hr). exists r0. split; [apply Hsub; assumption|assumption].
+          - intros An q0 a0 r0 I Hr. subst log'. destruct r as [y|].
+            + apply in_app_or in I. destruct I as [I|[E|[]]].
+              * destruct (B13 An q0 a0 r0 I Hr) as [(z & Iz & Ez & Pz)|[D|Ab]]; [left|right; left; assumption|right; right; assumption].
+                exists z. rewrite A in Iz. apply In_split3 in Iz. destruct Iz as [Iz|[->|Iz]].
+                -- split; [apply In_split3; tauto|split; assumption].
+                -- congruence.
+                -- split; [apply In_split3; tauto|split; assumption].
+              * injection E as <- <- <-. left. exists x'. split; [apply In_split3; tauto|]. split; [simpl; assumption|].
+                simpl. apply after_query_announce; assumption.
+            + destruct (B13 An q0 a0 r0 I Hr) as [(z & Iz & Ez & Pz)|[D|Ab]]; [left|right; left; assumption|right; right; assumption].
+              exists z. rewrite A in Iz. apply In_split3 in Iz. destruct Iz as [Iz|[->|Iz]].
+              * split; [apply In_split3; tauto|split; assumption].
+              * congruence.
+              * split; [apply In_split3; tauto|split; assumption].
+          - assumption. }
+        subst log'. rewrite Ad. destruct r as [y|]; apply K; cbn; try reflexivity; apply U. }
+      unfold Lookups.step. destruct (query_panics r); [|exact G].
+      apply (invB_frame _ _) with (6 := G); destruct r; reflexivity.
+    - (* QDeliver *)
+      admit.
+    - (* QAbandon *)
+      admit.
+    - (* QFinish *)
+      admit.
   Admitted.
 End LookupsProofs.
